@@ -710,3 +710,48 @@ def shared_class_objects(cls, ctor_names=('Event', 'Lock', 'RLock', 'Queue', 'Co
             if mutable and nm not in inits and any(isinstance(x, ast.Attribute) and self_attr(x) == nm for m in cls.methods.values() for x in ast.walk(m.node)):
                 out.append((st_, nm))
     return out
+
+
+def one_shot_results_read_twice(cls):
+    """locals that receive, from a method of cls, a value that can be iterated only once (the method returns a generator expression /
+    iter() / map / filter / zip result on some path, or is a generator) and are read more than once by the receiving function (reads in
+    the two arms of one `if` count once). Returns [(caller, name, read nodes, callee)]"""
+    def returned_one_shot(f):
+        if f.is_generator:
+            return True
+        local_gen = {t.id for n in walk_own(f.node) if isinstance(n, ast.Assign) for t in n.targets if isinstance(t, ast.Name) and
+                     (isinstance(n.value, ast.GeneratorExp) or (isinstance(n.value, ast.Call) and isinstance(n.value.func, ast.Name) and n.value.func.id in ONE_SHOT))}
+        for r in walk_own(f.node):
+            if isinstance(r, ast.Return) and r.value is not None:
+                v = r.value
+                if isinstance(v, ast.GeneratorExp) or (isinstance(v, ast.Call) and isinstance(v.func, ast.Name) and v.func.id in ONE_SHOT) or \
+                        (isinstance(v, ast.Name) and v.id in local_gen):
+                    return True
+        return False
+    producers = {m.name: m for m in cls.methods.values() if not m.is_property and returned_one_shot(m)}
+    out = []
+    for m in cls.methods.values():
+        for n in walk_own(m.node):
+            if isinstance(n, ast.Assign) and len(n.targets) == 1 and isinstance(n.targets[0], ast.Name) and isinstance(n.value, ast.Call) and \
+                    self_attr(n.value.func) in producers:
+                nm = n.targets[0].id
+                reads = [x for x in walk_own(m.node) if isinstance(x, ast.Name) and x.id == nm and isinstance(x.ctx, ast.Load)]
+                # reads that exclude each other (body / orelse of one if) count once
+                groups = []
+                for r in reads:
+                    placed = False
+                    for g in groups:
+                        for i_ in [i for i in walk_own(m.node) if isinstance(i, ast.If)]:
+                            in_b = lambda x, i_=i_: any(y is x for s_ in i_.body for y in ast.walk(s_))
+                            in_o = lambda x, i_=i_: any(y is x for s_ in i_.orelse for y in ast.walk(s_))
+                            if (in_b(r) and in_o(g[0])) or (in_o(r) and in_b(g[0])):
+                                g.append(r)
+                                placed = True
+                                break
+                        if placed:
+                            break
+                    if not placed:
+                        groups.append([r])
+                if len(groups) > 1:
+                    out.append((m, nm, reads, producers[self_attr(n.value.func)]))
+    return out
